@@ -343,7 +343,7 @@ Definition run_sx (c : sx) : sx :=
 
 (** the constructs the regular-expression front end is known not to support (known findings):
     class 2: a closing brace inside a string literal (rule_split_regex ends a rule at the first '}');
-    class 3: blank, "then", blank inside a string literal of the when clause (when_then_regex splits there);
+    (class 3, blank-then-blank inside a string literal of the when clause, was repaired: the body is split at the `then` outside literals)
     (class 4, a comment containing a closing brace or a rule header, was repaired: comments are removed before the file is split into rules;
      files with such comments - feature 4 of the generator - must now parse exactly)
     class 6: an opening brace inside the description string of a rule header (rule_regex takes the attributes from `[^{]*`, the
@@ -385,7 +385,6 @@ Definition descr_of (s : sx) : list str :=
 
 Definition file_class (grs : list grule) (descs : list str) (feats : list sx) : Z :=
   if existsb (fun r => existsb (memc 125) (rule_strs r)) grs || existsb (memc 125) descs then 2
-  else if existsb (fun r => existsb has_then (scond_strs (strip (g_cond r)))) grs then 3
   else if existsb (memc 123) descs then 6
   else 0.
 
